@@ -127,6 +127,7 @@ func (h *Header) decode(data []byte) error {
 	h.TerminalPhoneNo = utils.Bcd2Dec(h.bcdTerminalPhoneNo)
 	h.SerialNumber = binary.BigEndian.Uint16(data[start+phoneLen : start+phoneLen+2])
 	end := start + phoneLen + 2
+	h.SubPackageSum, h.SubPackageNo = 0, 0 // 不分包的时候为0 复用对象时不沿用上一帧的值
 	if h.Property.isSubPackage {
 		if len(data) < start+phoneLen+6 {
 			return protocol.ErrHeaderLength2Short
@@ -169,9 +170,7 @@ func (p *BodyProperty) decode(data []byte) {
 	p.bit14 = byte((attribute >> 14) & 0b1) // 第14位 协议版本 0-2013 1-2019
 	p.Version = p.bit14
 	p.PacketFragmented = byte((attribute >> 13) & 0b1) // 第13位 分包
-	if p.PacketFragmented == 1 {
-		p.isSubPackage = true
-	}
+	p.isSubPackage = p.PacketFragmented == 1 // 每次解析都重新赋值 复用对象时不沿用上一帧的分包标识
 	p.EncryptMethod = uint8((attribute & 0x400) >> 10) // 第10-12位 加密方式 0-不加密 1-RSA
 	p.BodyDayaLen = attribute & 0x3FF                  // 最低10位 消息体长度 3=011 F=1111
 }
